@@ -9,10 +9,14 @@ From Verif Require Import Lib.Base Lib.Utf8 Lib.GoStr Model.Cfg Gen.Tables Model
 Definition written (o : op) : bool :=
   match o with
   | OSet slot _ _ | OResolve slot _ | OSpAppend slot _ _ | OSpDelete slot _ | OSpSet slot _ _
-  | OSpSort slot | OSpSortAbs slot | OSpQuery slot _ | OSpTouch slot => slot
+  | OSpSort slot | OSpSortAbs slot | OSpQuery slot _ | OSpTouch slot | OSpAdopt slot => slot
   | OResolveInto _ => true
   | OCloneInto from => negb from
   end.
+
+(* the one operation with an argument taken from the other slot: it CALLS other.SearchParams(), which (like OSpTouch)
+   materialises the other URL's parameter list and changes nothing else *)
+Definition reads_other (o : op) : bool := match o with OSpAdopt _ => true | _ => false end.
 
 Section Frame.
   Variable idna_raw : str -> str * bool.
@@ -32,9 +36,10 @@ Section Frame.
   Qed.
 
   (* frame: the slot an operation does not write is unchanged - every getter and the parameter list of it *)
-  Theorem hstep_frame (s : hstate) (o : op) : get (fst (hstep s o)) (negb (written o)) = get s (negb (written o)).
+  Theorem hstep_frame (s : hstate) (o : op) : reads_other o = false ->
+    get (fst (hstep s o)) (negb (written o)) = get s (negb (written o)).
   Proof.
-    destruct o; cbn [Obs.hstep written fst].
+    intros Hro. destruct o; try discriminate Hro; cbn [Obs.hstep written fst].
     - destruct (get s slot) as [u|]; [|reflexivity]. destruct (setter idna_raw c which u v); cbn [fst]; apply get_put_other.
     - destruct (get s slot) as [u|]; [|reflexivity]. destruct (UrlParse idna_raw c u ref); cbn [fst]; try reflexivity; apply get_put_other.
     - destruct (fst s) as [u|]; [|reflexivity].
@@ -50,21 +55,43 @@ Section Frame.
     - destruct (get s slot) as [u|]; [|reflexivity]. cbn [fst]. apply get_put_other.
   Qed.
 
+  (* SetSearchParams: the other slot (whose list is the argument) is left as by a call of its SearchParams() getter *)
+  Theorem adopt_frame (s : hstate) slot :
+    get (fst (hstep s (OSpAdopt slot))) (negb slot) =
+    match get s slot with
+    | Some _ => option_map (fun v => fst (ensure_sp c v)) (get s (negb slot))
+    | None => get s (negb slot)
+    end.
+  Proof.
+    cbn [Obs.hstep]. destruct (get s slot) as [u|] eqn:Eu; [|reflexivity].
+    destruct (get s (negb slot)) as [v|] eqn:Ev; [|cbn [fst]; rewrite Ev; reflexivity].
+    destruct (ensure_sp c v) as [v' l] eqn:E. cbn [fst option_map]. rewrite get_put_other.
+    rewrite E. cbn [fst]. apply get_put_same.
+  Qed.
+
+  (* ... and the adopting URL ends with exactly the other URL's list, and the query that list serializes to *)
+  Theorem adopt_reflected (s : hstate) slot u v :
+    get s slot = Some u -> get s (negb slot) = Some v ->
+    get (fst (hstep s (OSpAdopt slot))) slot = Some (sp_update c (fst (ensure_sp c u)) (snd (ensure_sp c v))).
+  Proof.
+    intros Hu Hv. cbn [Obs.hstep]. rewrite Hu, Hv. destruct (ensure_sp c v) as [v' l]. cbn [fst snd]. apply get_put_same.
+  Qed.
+
   (* any sequence of operations all acting on one side leaves the other side unchanged *)
   Fixpoint hfold (s : hstate) (ops : list op) : hstate :=
     match ops with [] => s | o :: rest => hfold (fst (hstep s o)) rest end.
 
   Theorem history_frame (sl : bool) (ops : list op) (s : hstate) :
-    Forall (fun o => written o = sl) ops -> get (hfold s ops) (negb sl) = get s (negb sl).
+    Forall (fun o => written o = sl /\ reads_other o = false) ops -> get (hfold s ops) (negb sl) = get s (negb sl).
   Proof.
     revert s. induction ops as [|o ops IH]; intros s H; [reflexivity|].
-    apply Forall_cons_iff in H as [Ho Hrest]. cbn [hfold]. rewrite (IH _ Hrest).
-    rewrite <- Ho. apply hstep_frame.
+    apply Forall_cons_iff in H as [[Ho Hr] Hrest]. cbn [hfold]. rewrite (IH _ Hrest).
+    rewrite <- Ho. apply hstep_frame. exact Hr.
   Qed.
 
   (* resolving a reference never changes the base: B := A.Parse(ref) leaves A as it was *)
   Theorem resolve_leaves_base (s : hstate) ref : fst (fst (hstep s (OResolveInto ref))) = fst s.
-  Proof. exact (hstep_frame s (OResolveInto ref)). Qed.
+  Proof. exact (hstep_frame s (OResolveInto ref) eq_refl). Qed.
 
   (* a clone equals its original in every component except the recorded validation errors, and the source is unchanged *)
   Theorem clone_is_copy (s : hstate) from u :
